@@ -93,7 +93,7 @@ func VerifC10_step() {
 		release:           make(chan struct{}),
 	}
 	vKnownFields(d, "opts interruptInterval join output passAt release")
-	d.resetPassAt()
+	d.passAt = time.Now()
 	P := vNow() // passAt
 	accept := make([]int64, 0, JS)
 	for i := 0; i < L; i++ {
